@@ -150,3 +150,54 @@ MANIFEST_TEXT["C09"] = {
     "technique": "runtime monitoring: fault injection into update histories, shadow model + reference semantics",
 }
 NOT_APPLICABLE[:] = [e for e in NOT_APPLICABLE if e["property_id"] not in ("C08", "C09")]
+
+PROPS["C12"] = {
+    "level": "exploration",
+    "rule": "cases = update histories (5-60 operations, 2000 in thorough) over 3-6 labels plus one never-declared label, for AAFramework<usize>, AAFramework<String> (empty start or new_with_labels start) and LabelSet; weighted to self-attacks, repeated operations, removal of arguments carrying self + in + out attacks, re-insertion. After EVERY operation all public observables (counts, iter_attacks, per-argument iter_attacks_from/to as multisets, argument iteration with ids, get_argument, has_argument_with_id, is_empty, max id >= live ids) are compared with a set model; invalid/redundant operations must leave the snapshot unchanged. Non-trivial: the history contains at least one removal; distinct = hash of the operation list.",
+    "assumptions": ["the set model in harness/src/props/store_io.rs (labels -> id given at creation, set of attack pairs) implements the specified semantics", "only public observables are compared; internal index vectors are not inspected"],
+    "thresholds": {
+        "quick": {"evaluations": 500000, "distinct_nontrivial": 10000,
+                  "counters": {"coverage/re-inserted-label": 5000, "coverage/removed-argument-with-self-in-and-out-attacks": 200,
+                               "ops/-arg/Invalid": 1000, "ops/-att/Invalid": 1000, "ops/+att/Invalid": 1000, "ops/+arg/Redundant": 1000, "ops/+att/Redundant": 1000}},
+        "thorough": {"evaluations": 20000000, "distinct_nontrivial": 400000, "counters": {}},
+    },
+}
+PROPS["C13"] = {
+    "level": "exploration",
+    "rule": "cases = byte strings in three classes per format: (i) grammar-generated unarguably well-formed texts (comments, blank lines, CRLF, missing final newline, surrounding spaces, duplicates, n=0) which must be accepted and equal the reference parser's framework; (ii) texts ill-formed in one of the listed categories which must be rejected; (iii) 1-4 byte/token/line corruptions of class-(i) texts (hostile alphabet incl. non-UTF-8, signs, huge numbers) which must not panic and must agree with the strict reference parser whenever it accepts or rejects for a listed reason (acceptance of texts the reference rejects for an unlisted reason is counted as 'lenient', not judged). Also read_arg_from_str against label / 1-based index lookup and `crustabri check` exit status against the library on a sample. Non-trivial: accepted with at least one attack, or rejected for a listed category; distinct = hash of the bytes + format.",
+    "assumptions": ["the two strict reference parsers in harness/src/props/store_io.rs written from the format descriptions", "the property's list of ill-formedness categories is taken as exhaustive; declared sizes are capped at 100000"],
+    "thresholds": {
+        "quick": {"evaluations": 300000, "distinct_nontrivial": 100000,
+                  "counters": {"agreed-accept/apx": 20000, "agreed-accept/iccma23": 20000, "cli_check_runs": 500,
+                               "rejected/iccma23/content-after-blank-line": 1000, "rejected/iccma23/index-out-of-range": 1000,
+                               "rejected/apx/undeclared-argument": 1000, "rejected/apx/arg-after-att": 300,
+                               "rejected-unlisted/iccma23/not-utf8": 1000, "rejected-unlisted/apx/not-utf8": 1000}},
+        "thorough": {"evaluations": 10000000, "distinct_nontrivial": 3000000, "counters": {}},
+    },
+}
+PROPS["C14"] = {
+    "level": "exploration",
+    "rule": "cases = (a) frameworks produced by store histories over identifier labels (so tombstoned arguments/attacks exist), written by AspartixWriter::write_framework through a Vec and through a one-byte-per-call writer, parsed by the independent reference parser AND read back by AspartixReader: labels in order and attack set must be equal; (b) random sub-lists (incl. empty) of usize / identifier labels through both ResponseWriters, parsed by independent grammar parsers for `w( label)*\\n` and `[l(,l)*]\\n`; status lines must be exactly YES\\n / NO\\n. Non-trivial: framework whose history has removals and at least one attack, or extension of >= 2 labels; distinct = hash of the bytes written.",
+    "assumptions": ["the answer-grammar parsers and the Aspartix reference parser of the harness"],
+    "thresholds": {
+        "quick": {"evaluations": 150000, "distinct_nontrivial": 10000,
+                  "counters": {"frameworks_round_tripped": 10000, "extensions_checked/apx": 10000, "extensions_checked/iccma": 10000, "status_lines_checked": 50000}},
+        "thorough": {"evaluations": 4000000, "distinct_nontrivial": 200000, "counters": {}},
+    },
+}
+MANIFEST_TEXT["C12"] = {
+    "level_text": "History checking of the real store against an executable set model with a full comparison of every public observable after every single operation; violating histories are minimised. The right level because the property is a refinement statement over all histories and every divergence becomes observable at the API.",
+    "design_ref": "DESIGN.md section 5, C12", "level_note": "Trusted: the set model; only public observables compared. Held on the histories generated.",
+    "technique": "runtime monitoring: history + executable set model, snapshot comparison after every operation",
+}
+MANIFEST_TEXT["C13"] = {
+    "level_text": "Differential monitoring of both readers against two strict reference parsers over grammar-generated, deliberately ill-formed and corrupted inputs; panics are caught per input; the CLI `check` command's exit status is compared with the library on a sample.",
+    "design_ref": "DESIGN.md section 5, C13", "level_note": "Trusted: the reference parsers; the list of ill-formedness categories in the property is taken as exhaustive (other leniencies are counted, not judged).",
+    "technique": "runtime monitoring: reference parsers over generated and corrupted byte strings",
+}
+MANIFEST_TEXT["C14"] = {
+    "level_text": "Round-trip monitoring: everything the writers emit is parsed by independent grammar parsers (and by the repository's reader for frameworks) and compared with the object written, including short-write sinks.",
+    "design_ref": "DESIGN.md section 5, C14", "level_note": "Trusted: the grammar parsers of the harness. Labels restricted to valid Aspartix identifiers / usize as the property states.",
+    "technique": "runtime monitoring: round-trip through independent parsers",
+}
+NOT_APPLICABLE[:] = [e for e in NOT_APPLICABLE if e["property_id"] not in ("C12", "C13", "C14")]
